@@ -167,11 +167,17 @@ int main(int argc, char* const* argv)
     if (ca.m.count('x') + ca.m.count('i') == 1) abort("provide either both --txin and --tx, or neither");
     if (ca.m.count('x')) {
         have_txs = true;
-        if (!instance.parse_transaction(ca.m['x'].c_str(), false)) {
-            abort("failed to parse transaction");
-        }
-        if (!instance.parse_input_transaction(ca.m['i'].c_str())) {
-            abort("failed to parse input transaction");
+        try {
+            if (!instance.parse_transaction(ca.m['x'].c_str(), false)) {
+                abort("failed to parse transaction");
+            }
+            if (!instance.parse_input_transaction(ca.m['i'].c_str())) {
+                abort("failed to parse input transaction");
+            }
+        } catch (std::exception const& ex) {
+            // truncated / malformed serializations throw from the deserializer
+            fprintf(stderr, "error parsing transaction: %s\n", ex.what());
+            return 1;
         }
         btc_logf("targeting transaction vin at index #%lld\n", instance.txin_index);
     }
